@@ -343,4 +343,434 @@ theorem mem_symsOf_mkElem (toks : List ElemTok) (s : List Char) (h : ElemTok.sym
   · simp only [symsOf, List.mem_filterMap]
     exact ⟨.sym s, h, rfl⟩
 
+theorem parsePrimNums_ok_tails (c : Char) (hb : isBad c = true) :
+    ∀ (ps : List (List Char)) (nums : List Int), parsePrimNums ps = .ok nums → ∀ x ∈ ps, c ∉ x.tail
+  | [], _, _, x, hx => by cases hx
+  | y :: ys, nums, he, x, hx => by
+    unfold parsePrimNums at he
+    cases hp : pyInt y.tail with
+    | none => simp [hp] at he
+    | some n =>
+      simp only [hp] at he
+      cases hr : parsePrimNums ys with
+      | error e => simp [hr, bind, Except.bind] at he
+      | ok t =>
+        rcases List.mem_cons.mp hx with e | m
+        · subst e
+          intro hc
+          rw [pyInt_bad c hb _ hc] at hp; cases hp
+        · exact parsePrimNums_ok_tails c hb ys t hr x m
+
+theorem firstChars_mem :
+    ∀ (ps : List (List Char)) (fcs : List Char), firstChars ps = some fcs → ∀ (f : Char) (r : List Char), (f :: r) ∈ ps → f ∈ fcs
+  | [], _, _, f, r, h => by cases h
+  | y :: ys, fcs, he, f, r, h => by
+    unfold firstChars at he
+    cases y with
+    | nil => simp at he
+    | cons y0 yr =>
+      simp only at he
+      cases hr : firstChars ys with
+      | none => simp [hr] at he
+      | some t =>
+        simp only [hr, Option.map_some, Option.some.injEq] at he
+        subst he
+        rcases List.mem_cons.mp h with e | m
+        · cases e; simp
+        · exact List.mem_cons_of_mem _ (firstChars_mem ys t hr f r m)
+
+theorem firstChars_head (p0r : List Char) (t : Char) (rest : List (List Char)) (fcs : List Char)
+    (h : firstChars ((t :: p0r) :: rest) = some fcs) : ∃ tl, fcs = t :: tl := by
+  unfold firstChars at h
+  simp only at h
+  cases hr : firstChars rest with
+  | none => simp [hr] at h
+  | some tl => simp only [hr, Option.map_some, Option.some.injEq] at h; exact ⟨tl, h.symm⟩
+
+theorem allSame_mem (t : Char) (tl : List Char) (h : allSame (t :: tl) = true) (f : Char) (hf : f ∈ t :: tl) : f = t := by
+  unfold allSame at h
+  rcases List.mem_cons.mp hf with e | m
+  · exact e
+  · exact beq_iff_eq.mp (List.all_eq_true.mp h f m)
+
+theorem primLetters_are_letters : primLetters.all isLetter = true := by decide
+
+/-- a numeric primitive containing a bad character is never accepted -/
+theorem applyNumPrim_bad (c : Char) (hb : isBad c = true) (out : Parsed) (ps : List (List Char))
+    (hx : ∃ x ∈ ps, c ∈ x) : ∀ o, applyNumPrim out ps ≠ .ok o := by
+  intro o he
+  obtain ⟨hlet, _⟩ := bad_ne hb
+  obtain ⟨x, hxps, hcx⟩ := hx
+  unfold applyNumPrim at he
+  split at he
+  · cases he
+  · rename_i fcs hfc
+    split at he
+    · cases he
+    · rename_i hsame
+      split at he
+      · cases he
+      · rename_i p0 rest
+        split at he
+        · cases he
+        · rename_i t p0r
+          split at he
+          · cases he
+          · rename_i hprim
+            split at he
+            · cases he
+            · rename_i nums hnums
+              -- the first character of the piece that contains c
+              have htail := parsePrimNums_ok_tails c hb _ nums hnums x hxps
+              cases x with
+              | nil => cases hcx
+              | cons f r =>
+                have hfc' : f = c := by
+                  rcases List.mem_cons.mp hcx with e | m
+                  · exact e.symm
+                  · exact absurd m htail
+                subst hfc'
+                -- f is the first character of p0 (= t), directly or through the all-same test
+                have hft : f = t := by
+                  rcases List.mem_cons.mp hxps with e | m
+                  · cases e; rfl
+                  · have hlen : ((t :: p0r) :: rest).length != 1 := by
+                      cases rest with
+                      | nil => cases m
+                      | cons _ _ => simp
+                    simp only [hlen, if_true] at hfc
+                    obtain ⟨tl, htl⟩ := firstChars_head p0r t rest fcs hfc
+                    have hmem := firstChars_mem _ fcs hfc f r (List.mem_cons_of_mem _ m)
+                    simp only [hlen, Bool.true_and, Bool.not_eq_true', Bool.not_eq_false'] at hsame
+                    subst htl
+                    exact allSame_mem t tl (by simpa using hsame) f hmem
+                subst hft
+                simp only [Bool.not_eq_true', Bool.not_eq_false'] at hprim
+                have : isLetter f = true :=
+                  List.all_eq_true.mp primLetters_are_letters f (List.contains_iff_mem.mp (by simpa using hprim))
+                rw [hlet] at this; cases this
+
+theorem applyPrim_bad (c : Char) (hb : isBad c = true) (out : Parsed) (p : List Char) (hc : c ∈ p) :
+    ∀ o, applyPrim out p ≠ .ok o := by
+  intro o he
+  obtain ⟨hlet, _, _, _, hcomma, _, hbang, _⟩ := bad_ne hb
+  unfold applyPrim at he
+  have notword : ∀ w : List Char, (∀ ch ∈ w, isLetter ch = true ∨ ch = '!') → p ≠ w := by
+    intro w hw e
+    subst e
+    rcases hw c hc with h | h
+    · rw [hlet] at h; cases h
+    · exact hbang h
+  have h1 : p.isEmpty = false := by cases p with | nil => cases hc | cons _ _ => rfl
+  have h2 : (p == ['a']) = false := by
+    apply beq_eq_false_iff_ne.mpr; apply notword; intro ch hch; simp at hch; subst hch; left; decide
+  have h3 : (p == ['A']) = false := by
+    apply beq_eq_false_iff_ne.mpr; apply notword; intro ch hch; simp at hch; subst hch; left; decide
+  have h4 : (p == ['!', 'R']) = false := by
+    apply beq_eq_false_iff_ne.mpr; apply notword; intro ch hch; simp at hch
+    rcases hch with e | e
+    · right; exact e
+    · subst e; left; decide
+  have h5 : (p == ['M']) = false := by
+    apply beq_eq_false_iff_ne.mpr; apply notword; intro ch hch; simp at hch; subst hch; left; decide
+  simp only [h1, h2, h3, h4, h5, Bool.false_eq_true, if_false] at he
+  exact applyNumPrim_bad c hb out _ (splitOn_keeps ',' c hcomma p hc) o he
+
+theorem setPrim_element (out : Parsed) (t : Char) (nums : List Int) : (setPrim out t nums).element = out.element := by
+  unfold setPrim; split <;> (try rfl) <;> split <;> (try rfl) <;> split <;> (try rfl) <;> split <;> rfl
+
+theorem applyNumPrim_element (out o : Parsed) (ps : List (List Char)) (h : applyNumPrim out ps = .ok o) :
+    o.element = out.element := by
+  unfold applyNumPrim at h
+  split at h
+  · cases h
+  · split at h
+    · cases h
+    · split at h
+      · cases h
+      · split at h
+        · cases h
+        · split at h
+          · cases h
+          · split at h
+            · cases h
+            · cases h; exact setPrim_element _ _ _
+
+theorem applyPrim_element (out o : Parsed) (p : List Char) (h : applyPrim out p = .ok o) : o.element = out.element := by
+  unfold applyPrim at h
+  split at h
+  · cases h; rfl
+  · split at h
+    · cases h; rfl
+    · split at h
+      · cases h; rfl
+      · split at h
+        · cases h; rfl
+        · split at h
+          · cases h; rfl
+          · exact applyNumPrim_element _ _ _ h
+
+theorem applyPrims_ok (c : Char) (hb : isBad c = true) :
+    ∀ (prims : List (List Char)) (out p : Parsed), applyPrims out prims = .ok p →
+      (∀ q ∈ prims, c ∉ q) ∧ p.element = out.element
+  | [], out, p, h => by
+    simp only [applyPrims] at h; cases h
+    exact ⟨fun q hq => absurd hq (List.not_mem_nil), rfl⟩
+  | q :: qs, out, p, h => by
+    unfold applyPrims at h
+    cases ho : applyPrim out q with
+    | error e => simp [ho, bind, Except.bind] at h
+    | ok o =>
+      simp only [ho, bind, Except.bind] at h
+      obtain ⟨h1, h2⟩ := applyPrims_ok c hb qs o p h
+      refine ⟨?_, h2.trans (applyPrim_element _ _ _ ho)⟩
+      intro q' hq'
+      rcases List.mem_cons.mp hq' with e | m
+      · subst e; intro hc; exact applyPrim_bad c hb out q' hc o ho
+      · exact h1 q' m
+
+/-- if the second half of `_query_parse` succeeds on a text with a bad character, that character sits in an element symbol -/
+theorem parseBody_bad (c : Char) (hb : isBad c = true) (t4 : List Char) (mk : Marks) (p : Parsed)
+    (h : parseBody t4 mk = .ok p) (hc : c ∈ t4) : ∃ s ∈ symsOf p.element, c ∈ s := by
+  obtain ⟨_, _, _, _, hcomma, hsemi, _⟩ := bad_ne hb
+  unfold parseBody at h
+  obtain ⟨piece, hpiece, hcp⟩ := splitOn_keeps ';' c hsemi t4 hc
+  split at h
+  · cases h
+  · rename_i e prims hsplit
+    split at h
+    · cases h
+    · split at h
+      · cases h
+      · rename_i items hitems
+        obtain ⟨hprims, helem⟩ := applyPrims_ok c hb prims _ p h
+        rw [hsplit] at hpiece
+        rcases List.mem_cons.mp hpiece with e' | m
+        · subst e'
+          obtain ⟨x, hx, hcx⟩ := splitOn_keeps ',' c hcomma piece hcp
+          obtain ⟨s, hs, hcs⟩ := parseElemItems_bad c hb _ items hitems x hx hcx
+          rw [helem]
+          exact ⟨s, mem_symsOf_mkElem items s hs, hcs⟩
+        · exact absurd hcp (hprims piece m)
+
+theorem stripMarks_keeps (c : Char) (hb : isBad c = true) (s t4 : List Char) (mk : Marks)
+    (h : stripMarks s = .ok (t4, mk)) (hc : c ∈ s) : c ∈ t4 := by
+  have h1 : c ∈ (spanDigits s).2 := spanDigits_keeps c hb s hc
+  have step34 : ∀ t2 : List Char, c ∈ t2 →
+      c ∈ (match strSearch (match mppSearch t2 with | none => t2 | some (b, _) => b) with
+           | none => (match mppSearch t2 with | none => t2 | some (b, _) => b)
+           | some (b, _, a) => b ++ a) := by
+    intro t2 h2
+    have h3 : c ∈ (match mppSearch t2 with | none => t2 | some (b, _) => b) := by
+      cases hm : mppSearch t2 with
+      | none => exact h2
+      | some r => obtain ⟨b, n⟩ := r; exact mppSearch_keeps c hb t2 h2 b n hm
+    generalize (match mppSearch t2 with | none => t2 | some (b, _) => b) = t3 at h3 ⊢
+    cases hs : strSearch t3 with
+    | none => exact h3
+    | some r => obtain ⟨b, m, a⟩ := r; exact strSearch_keeps c hb t3 h3 b m a hs
+  unfold stripMarks at h
+  simp only at h
+  cases hchg : chgSearch (spanDigits s).2 with
+  | none =>
+    simp only [hchg] at h
+    cases h
+    exact step34 _ h1
+  | some r =>
+    obtain ⟨b, m, a⟩ := r
+    simp only [hchg] at h
+    cases hl : lookupC m chargeDict with
+    | none => simp [hl] at h
+    | some cv =>
+      simp only [hl] at h
+      cases h
+      exact step34 _ (chgSearch_keeps c hb _ h1 b m a hchg)
+
+/-! ### an element symbol with a bad character is in no table -/
+
+theorem querySyms_letters : querySyms.all (fun r => r.1.all isLetter) = true := by decide +kernel
+theorem elemFlags_letters : elemFlags.all (fun r => r.1.all isLetter) = true := by decide +kernel
+
+theorem lookupC_bad {β} (c : Char) (hl : isLetter c = false) (s : List Char) (hc : c ∈ s) :
+    ∀ l : List (List Char × β), l.all (fun r => r.1.all isLetter) = true → lookupC s l = none
+  | [], _ => rfl
+  | (k, v) :: t, h => by
+    simp only [List.all_cons, Bool.and_eq_true] at h
+    unfold lookupC
+    have : (s == k) = false := by
+      apply beq_eq_false_iff_ne.mpr
+      intro e; subst e
+      have := List.all_eq_true.mp h.1 c hc
+      rw [hl] at this; cases this
+    simp only [this, Bool.false_eq_true, if_false]
+    exact lookupC_bad c hl s hc t h.2
+
+theorem zOfElemSym_bad (c : Char) (hl : isLetter c = false) (s : List Char) (hc : c ∈ s) : zOfElemSym s = none := by
+  unfold zOfElemSym
+  have : elemFlags.find? (fun r => r.1 == s) = none := by
+    apply List.find?_eq_none.mpr
+    intro r hr
+    have := List.all_eq_true.mp (List.all_eq_true.mp elemFlags_letters r hr) 
+    simp only [beq_iff_eq]
+    intro e; subst e
+    have := this c hc
+    rw [hl] at this; cases this
+  rw [this]; rfl
+
+theorem listElements_bad (c : Char) (hl : isLetter c = false) :
+    ∀ es : List ElemTok, (∃ s, ElemTok.sym s ∈ es ∧ c ∈ s) → ∃ e, listElements es = .error e
+  | [], ⟨_, h, _⟩ => by cases h
+  | .num n :: t, ⟨s, hs, hc⟩ => by
+    have hs' : ElemTok.sym s ∈ t := by
+      rcases List.mem_cons.mp hs with e | m
+      · cases e
+      · exact m
+    obtain ⟨e, he⟩ := listElements_bad c hl t ⟨s, hs', hc⟩
+    unfold listElements
+    split
+    · exact ⟨e, by simp [he, bind, Except.bind]⟩
+    · exact ⟨_, rfl⟩
+  | .sym s0 :: t, ⟨s, hs, hc⟩ => by
+    unfold listElements
+    rcases List.mem_cons.mp hs with e | m
+    · have e' : s = s0 := by injection e
+      subst e'
+      rw [zOfElemSym_bad c hl s hc]
+      exact ⟨_, rfl⟩
+    · cases hz : zOfElemSym s0 with
+      | none => exact ⟨_, rfl⟩
+      | some z =>
+        obtain ⟨e, he⟩ := listElements_bad c hl t ⟨s, m, hc⟩
+        exact ⟨e, by simp [he, bind, Except.bind]⟩
+
+theorem resolveKind_bad (c : Char) (hb : isBad c = true) (p : Parsed) (h : ∃ s ∈ symsOf p.element, c ∈ s) :
+    ∃ e, resolveKind p = .error e := by
+  obtain ⟨hl, _⟩ := bad_ne hb
+  obtain ⟨s, hs, hc⟩ := h
+  unfold resolveKind
+  cases he : p.element with
+  | one tok =>
+    cases tok with
+    | num n => simp [he, symsOf] at hs
+    | sym s' =>
+      simp only [he, symsOf, List.mem_singleton] at hs
+      subst hs
+      have nA : (s == ['A']) = false := by
+        apply beq_eq_false_iff_ne.mpr; intro e; subst e
+        simp at hc; subst hc; revert hl; decide
+      have nM : (s == ['M']) = false := by
+        apply beq_eq_false_iff_ne.mpr; intro e; subst e
+        simp at hc; subst hc; revert hl; decide
+      simp only [nA, nM, Bool.false_eq_true, if_false]
+      unfold zOfQuerySym
+      rw [lookupC_bad c hl s hc querySyms querySyms_letters]
+      exact ⟨_, rfl⟩
+  | many es =>
+    simp only [he, symsOf, List.mem_filterMap] at hs
+    obtain ⟨tok, htok, hsome⟩ := hs
+    have : ElemTok.sym s ∈ es := by
+      cases tok with
+      | num n => simp at hsome
+      | sym s' => simp at hsome; subst hsome; exact htok
+    obtain ⟨e, hle⟩ := listElements_bad c hl es ⟨s, this, hc⟩
+    simp only [hle]
+    exact ⟨e, rfl⟩
+
+theorem buildAtom_bad (c : Char) (hb : isBad c = true) (p : Parsed) (r : Bool) (h : ∃ s ∈ symsOf p.element, c ∈ s) :
+    ∃ e, buildAtom p r = .error e := by
+  obtain ⟨e, he⟩ := resolveKind_bad c hb p h
+  unfold buildAtom
+  rw [he]
+  exact ⟨e, rfl⟩
+
+/-- `_query_parse` followed by the class construction never accepts a bracket content with a bad character -/
+theorem queryParse_build_bad (c : Char) (hb : isBad c = true) (s : List Char) (hc : c ∈ s) (r : Bool) :
+    (∃ e, queryParse s = .error e) ∨ (∃ p e, queryParse s = .ok p ∧ buildAtom p r = .error e) := by
+  unfold queryParse
+  cases hs : stripMarks s with
+  | error e => left; exact ⟨e, rfl⟩
+  | ok tm =>
+    obtain ⟨t4, mk⟩ := tm
+    simp only
+    have h4 := stripMarks_keeps c hb s t4 mk hs hc
+    cases hp : parseBody t4 mk with
+    | error e => left; exact ⟨e, rfl⟩
+    | ok p =>
+      right
+      obtain ⟨e, he⟩ := buildAtom_bad c hb p r (parseBody_bad c hb t4 mk p hp h4)
+      exact ⟨p, e, rfl, he⟩
+
+/-! ### lifting to `smarts('[' + s + ']')` -/
+
+theorem tokLoop_inside (acc : List Char) :
+    ∀ s : List Char, '[' ∉ s → ']' ∉ s →
+      tokLoop { tt := .t5, chars := acc } s = .ok { tt := .t5, chars := s.reverse ++ acc }
+  | [], _, _ => by simp [tokLoop]
+  | x :: xs, h1, h2 => by
+    have hx1 : x ≠ '[' := fun e => h1 (e ▸ List.mem_cons_self)
+    have hx2 : x ≠ ']' := fun e => h2 (e ▸ List.mem_cons_self)
+    have step : tokStep { tt := .t5, chars := acc } x = .ok { tt := .t5, chars := x :: acc } := by
+      unfold tokStep
+      have a1 : (x == '[') = false := by simp [hx1]
+      have a2 : (x == ']') = false := by simp [hx2]
+      simp [a1, a2]
+    unfold tokLoop
+    simp only [step, bind, Except.bind]
+    rw [tokLoop_inside (x :: acc) xs (fun h => h1 (List.mem_cons_of_mem _ h)) (fun h => h2 (List.mem_cons_of_mem _ h))]
+    simp
+
+theorem tokLoop_append : ∀ (a b : List Char) (st : TState),
+    tokLoop st (a ++ b) = (match tokLoop st a with | .ok st' => tokLoop st' b | .error e => .error e)
+  | [], b, st => by simp [tokLoop]
+  | x :: xs, b, st => by
+    simp only [List.cons_append, tokLoop, bind, Except.bind]
+    cases tokStep st x with
+    | error e => rfl
+    | ok st' => exact tokLoop_append xs b st'
+
+theorem tokenize_single (s : List Char) (hne : s ≠ []) (h1 : '[' ∉ s) (h2 : ']' ∉ s) :
+    tokenizeQ ('[' :: s ++ [']']) = .ok [.atom s] := by
+  unfold tokenizeQ
+  have h0 : tokStep {} '[' = .ok { tt := .t5, chars := [] } := by
+    unfold tokStep; simp
+  have hl : tokLoop {} ('[' :: s ++ [']']) = .ok { tt := .t0, toks := [.atom s] } := by
+    show tokLoop {} ('[' :: (s ++ [']'])) = _
+    unfold tokLoop
+    simp only [h0, bind, Except.bind]
+    rw [tokLoop_append, tokLoop_inside [] s h1 h2]
+    simp only [List.append_nil]
+    unfold tokLoop
+    have : tokStep { tt := .t5, chars := s.reverse } ']' = .ok { tt := .t0, toks := [.atom s] } := by
+      unfold tokStep
+      have e : s.reverse.isEmpty = false := by
+        cases hs : s.reverse with
+        | nil => exact absurd (List.reverse_eq_nil_iff.mp hs) hne
+        | cons _ _ => rfl
+      simp [e]
+    simp only [this, bind, Except.bind, tokLoop]
+  simp only [hl, bind, Except.bind]
+  simp
+
+/-- **a bracket atom containing a character that no documented construct uses is rejected** (whatever else it contains) -/
+theorem bad_char_inner_rejected (c : Char) (hb : isBad c = true) (s : List Char) (hc : c ∈ s)
+    (h1 : '[' ∉ s) (h2 : ']' ∉ s) (rad : List Nat) : ∃ e, smartsInner ('[' :: s ++ [']']) rad = .err e := by
+  have hne : s ≠ [] := by intro e; subst e; cases hc
+  unfold smartsInner
+  rw [tokenize_single s hne h1 h2]
+  simp only [smartsTokens]
+  rcases queryParse_build_bad c hb s hc (rad.contains 0) with ⟨e, he⟩ | ⟨p, e, hp, hbuild⟩
+  · simp only [he, bind, Except.bind]; exact ⟨e, rfl⟩
+  · simp only [hp, bind, Except.bind, parseLoop, parseStep, List.length_nil, beq_self_eq_true, if_true]
+    simp only [bne_self_eq_false, Bool.false_eq_true, if_false, List.reverse_cons, List.reverse_nil, List.nil_append,
+               List.length_singleton]
+    split
+    · exact ⟨_, rfl⟩
+    · have hnum : ∃ n, numberAtoms [p] (List.foldl (fun a p => max a (p.mapping.getD 0)) 0 [p] + 1) 1 = [n] := by
+        unfold numberAtoms
+        split <;> (try split) <;> (try split) <;> simp [numberAtoms]
+      obtain ⟨n, hn⟩ := hnum
+      rw [hn]
+      simp only [buildAtoms, hbuild, bind, Except.bind]
+      exact ⟨e, rfl⟩
+
 end ChythonModel.Proofs.C08
